@@ -87,6 +87,7 @@ type TypeExpr struct {
 	Name string // for "name": "int", "pkg.T", "T"
 	Elem *TypeExpr
 	Key  *TypeExpr
+	Args []*TypeExpr // generic instantiation
 }
 
 func (t *TypeExpr) String() string {
@@ -105,6 +106,12 @@ func (t *TypeExpr) String() string {
 		return "seq[" + t.Elem.String() + "]"
 	case "mmap":
 		return "mmap[" + t.Key.String() + "]" + t.Elem.String()
+	case "inst":
+		var as []string
+		for _, a := range t.Args {
+			as = append(as, a.String())
+		}
+		return t.Name + "[" + strings.Join(as, ",") + "]"
 	}
 	return "?"
 }
@@ -152,6 +159,7 @@ type FuncContract struct {
 	Asserts   []*Clause // "assert" hints keyed by source text (rare)
 	PrivReq   []*Clause // assumed at body entry only (unfolding of an abstract predicate)
 	PrivEns   []*Clause // checked at body exit only
+	FreeEns   []*Clause // assumed at call sites, not checked against the body (listed as an assumption)
 	Template  []QVar    // for templates: the parameters a function must have
 	IsTempl   bool
 }
@@ -306,6 +314,7 @@ type parser struct {
 	toks []tok
 	p    int
 	src  string
+	noIn bool // parsing the bound value of a let: "in" ends it
 }
 
 func (p *parser) peek() tok { return p.toks[p.p] }
@@ -397,7 +406,10 @@ func (p *parser) parseExpr() Expr {
 		p.p++
 		name := p.expectIdent()
 		p.expectOp(":=")
+		saved := p.noIn
+		p.noIn = true
 		val := p.parseTernary()
+		p.noIn = saved
 		if !p.isIdent("in") {
 			panic(fmt.Errorf("expected 'in' after let binding in %q", p.src))
 		}
@@ -488,7 +500,7 @@ func (p *parser) parseCmp() Expr {
 			x = &EBinary{t.text, x, y}
 			continue
 		}
-		if t.kind == "ident" && (t.text == "in" || t.text == "subset") {
+		if t.kind == "ident" && (t.text == "in" || t.text == "subset") && !(p.noIn && t.text == "in") {
 			p.p++
 			y := p.parseAddExpr()
 			x = &EBinary{t.text, x, y}
@@ -652,7 +664,10 @@ func (p *parser) parsePrimary() Expr {
 				}
 				p.p = save
 			}
+			savedNoIn := p.noIn
+			p.noIn = false
 			e := p.parseExpr()
+			p.noIn = savedNoIn
 			p.expectOp(")")
 			return e
 		case "*", "[":
@@ -710,6 +725,33 @@ func (p *parser) parseType() *TypeExpr {
 			p.p++
 			name += "." + p.next().text
 		}
+		// generic instantiation: Name[T1, T2]
+		if p.isOp("[") && name != "set" && name != "seq" {
+			save := p.p
+			p.p++
+			var targs []*TypeExpr
+			ok := true
+			func() {
+				defer func() {
+					if r := recover(); r != nil {
+						ok = false
+					}
+				}()
+				for {
+					targs = append(targs, p.parseType())
+					if p.isOp(",") {
+						p.p++
+						continue
+					}
+					break
+				}
+				p.expectOp("]")
+			}()
+			if ok && len(targs) > 0 {
+				return &TypeExpr{Kind: "inst", Name: name, Args: targs}
+			}
+			p.p = save
+		}
 		return &TypeExpr{Kind: "name", Name: name}
 	}
 	panic(fmt.Errorf("expected type at %d in %q (got %q)", t.pos, p.src, t.text))
@@ -724,7 +766,7 @@ var clauseKeywords = map[string]bool{
 	"invariant": true, "ghost": true, "step": true, "exit": true, "func": true, "spec": true,
 	"lemma": true, "axiom": true, "field": true, "type": true, "noreturn": true, "allocates": true,
 	"trigger": true, "params": true, "opaque": true, "havocs": true, "maypanic": true,
-	"ghostvar": true, "package": true, "private": true, "template": true, "framed": true, "notemplate": true,
+	"free": true, "ghostvar": true, "package": true, "private": true, "template": true, "framed": true, "notemplate": true,
 }
 
 type rawLine struct {
@@ -1070,6 +1112,16 @@ func (C *Contracts) parseStatements(pkg, path string, stmts []rawLine) (err erro
 			} else {
 				cur.PrivEns = append(cur.PrivEns, c)
 			}
+		case "free":
+			if cur == nil || !strings.HasPrefix(rest, "ensures") {
+				return cerr(st, "free must be 'free ensures' inside a func")
+			}
+			rest = strings.TrimSpace(rest[len("ensures"):])
+			c, err := mkClause("ensures", true)
+			if err != nil {
+				return err
+			}
+			cur.FreeEns = append(cur.FreeEns, c)
 		case "template":
 			// template name(param T, ...): clauses that follow apply to every function of the package having these parameters
 			toks, err := lex(rest)
